@@ -19,10 +19,12 @@ var sniffFormats = []sniffFormat{
 	spdxSniff{},
 }
 
-var state = make(map[string]sniffState, len(sniffFormats))
+// sniffStates holds the scratch state of the line sniffers for one call
+// to SniffReader, indexed by format.
+type sniffStates map[string]sniffState
 
 type sniffFormat interface {
-	sniff(data []byte) Format
+	sniff(data []byte, state sniffStates) Format
 }
 
 type Sniffer struct{}
@@ -103,10 +105,10 @@ func (fs *Sniffer) SniffReader(f io.ReadSeeker) (Format, error) {
 
 	var format Format
 
-	initSniffState()
+	state := make(sniffStates, len(sniffFormats))
 	for fileScanner.Scan() {
 		verifhook.Point("formats.SniffReader:line-loop")
-		format = fs.sniff(fileScanner.Bytes())
+		format = fs.sniff(fileScanner.Bytes(), state)
 
 		if format != EmptyFormat {
 			break
@@ -121,9 +123,9 @@ func (fs *Sniffer) SniffReader(f io.ReadSeeker) (Format, error) {
 	return "", fmt.Errorf("unknown SBOM format")
 }
 
-func (fs *Sniffer) sniff(data []byte) Format {
+func (fs *Sniffer) sniff(data []byte, state sniffStates) Format {
 	for _, sniffer := range sniffFormats {
-		format := sniffer.sniff(data)
+		format := sniffer.sniff(data, state)
 		if format != EmptyFormat {
 			return format
 		}
@@ -147,7 +149,7 @@ func (st *sniffState) Format() Format {
 
 type cdxSniff struct{}
 
-func (c cdxSniff) sniff(data []byte) Format {
+func (c cdxSniff) sniff(data []byte, _ sniffStates) Format {
 	// protobom only supports CDX formats as JSON
 	//  we are parsing the JSON in SniffReader by decoding to the SpecVersionStruct
 	//   removing all the previous JSON-related string matching from this function
@@ -159,8 +161,8 @@ func (c cdxSniff) sniff(data []byte) Format {
 
 type spdxSniff struct{}
 
-func (c spdxSniff) sniff(data []byte) Format {
-	state := getSniffState(SPDXFORMAT)
+func (c spdxSniff) sniff(data []byte, states sniffStates) Format {
+	state := states.get(SPDXFORMAT)
 	verifhook.Point("formats.spdxSniff:between-get-and-set-state")
 
 	stringValue := string(data)
@@ -184,23 +186,19 @@ func (c spdxSniff) sniff(data []byte) Format {
 	// 'SPDX-2.3' somewhere else in the file (a comment, a license text) says
 	// nothing about the version of the document.
 
-	setSniffState(SPDXFORMAT, state)
+	states.set(SPDXFORMAT, state)
 	return state.Format()
 }
 
-func initSniffState() {
-	state = make(map[string]sniffState, len(sniffFormats))
-}
-
-func getSniffState(t string) sniffState {
-	dm, ok := state[t]
+func (states sniffStates) get(t string) sniffState {
+	dm, ok := states[t]
 	if !ok {
-		state[t] = sniffState{}
-		return state[t]
+		states[t] = sniffState{}
+		return states[t]
 	}
 	return dm
 }
 
-func setSniffState(t string, snifferState sniffState) {
-	state[t] = snifferState
+func (states sniffStates) set(t string, snifferState sniffState) {
+	states[t] = snifferState
 }
